@@ -60,7 +60,7 @@ def main():
         todo.append((mid, 'edit', (f, old, new), props))
     sd = os.path.join(VERIF, 'seeded')
     if os.path.isdir(sd):
-        for d in sorted(os.listdir(sd)):
+        for d in sorted(x for x in os.listdir(sd) if os.path.isdir(os.path.join(sd, x))):
             if args and not any(a in d for a in args): continue
             meta = json.load(open(os.path.join(sd, d, 'meta.json')))
             todo.append((d, 'patch', os.path.join(sd, d, 'patch.diff'), meta.get('checks') or [meta['property']]))
